@@ -15,7 +15,12 @@ inductive TouchKind (s s' : State) (u : Tid) (e : Ev) (r : Rid) : Prop
   | own (hr : r ∈ (s.fr u).recs) (hc : inCall (s.pc u) = true) (hf : (s.fr u).frees = 0)
   | pop (o : ObjId) (hq : r ∈ (s.obj o).queue)
   | clear (c : Nat) (l : List Rid) (hwk : wk (s.pc u) = some (c, l)) (hp : s.post u = none) (hr : r ∈ l)
-  | post (j : SemId) (he : e = .semV j) (hp : s.post u = some r)
+  | post (j : SemId) (he : e = .semV j) (hp : s.post u = some r) (hw : wk (s.pc u) = none)
+
+theorem touches_semV {s : State} {u : Tid} {j : SemId} {r : Rid} (ht : touches s u (.semV j) r) :
+    s.post u = some r ∧ wk (s.pc u) = none := by
+  simp only [touches] at ht
+  cases hp : s.pc u <;> rw [hp] at ht <;> first | exact ht.elim | exact ⟨ht, rfl⟩
 
 theorem touches_cases {s : State} {u : Tid} {e : Ev} {r : Rid} (ht : touches s u e r) :
     (∃ o fn obs, e = .ld o (.waiting r) fn obs) ∨ (∃ o fn new obs, e = .st o (.waiting r) fn new obs)
@@ -25,7 +30,7 @@ theorem touches_cases {s : State} {u : Tid} {e : Ev} {r : Rid} (ht : touches s u
   | st o loc fn new obs => cases loc <;> simp [touches] at ht; subst ht; exact .inr (.inl ⟨_, _, _, _, rfl⟩)
   | cas o loc fn exp new obs ok =>
     cases loc <;> simp [touches] at ht; subst ht; exact .inr (.inr (.inl ⟨_, _, _, _, _, _, rfl⟩))
-  | semV j => exact .inr (.inr (.inr ⟨j, rfl, ht⟩))
+  | semV j => exact .inr (.inr (.inr ⟨j, rfl, (touches_semV ht).1⟩))
   | _ => simp [touches] at ht
 
 theorem dflt_touch {s s' : State} {u : Tid} {e : Ev} {r : Rid} (h : dflt s u e = .ok s')
@@ -34,7 +39,7 @@ theorem dflt_touch {s s' : State} {u : Tid} {e : Ev} {r : Rid} (h : dflt s u e =
   · simp [dflt] at h
   · simp [dflt] at h
   · simp [dflt] at h
-  · exact .post j rfl hp
+  · exact .post j rfl (touches_semV ht).1 (touches_semV ht).2
 
 theorem proto_touch {s s' : State} {u : Tid} {e : Ev} {r : Rid} (h : proto s u e = .ok s')
     (ht : touches s u e r) : TouchKind s s' u e r := by
@@ -54,8 +59,7 @@ theorem proto_touch {s s' : State} {u : Tid} {e : Ev} {r : Rid} (h : proto s u e
         exact .pop _ (by rw [hq, hg.1]; simp)
       · simp at h
   · -- semV
-    simp only [touches] at ht
-    exact .post _ rfl ht
+    exact .post _ rfl (touches_semV ht).1 (touches_semV ht).2
   · exact dflt_touch h ht
 
 theorem stepOpen_touch {s s' : State} {u : Tid} {e : Ev} {r : Rid} (h : stepOpen s u e = .ok s')
@@ -115,10 +119,8 @@ theorem touch_stepThr {s s' : State} {u : Tid} {e : Ev} {r : Rid} (hl : LInv (s.
         · rename_i hg
           exact .clear _ _ (by rw [hpc]; rfl) ‹s.post u = none› (by rw [hg.1]; simp)
         · simp at h
-      · simp only [touches] at ht
-        exact .post _ rfl ht
-      · simp only [touches] at ht
-        exact .post _ rfl ht
+      · have := (touches_semV ht).2; rw [hpc] at this; simp [wk] at this
+      · have := (touches_semV ht).2; rw [hpc] at this; simp [wk] at this
       · exact dflt_touch h ht
     · split_ok h <;> touch_leaf
   · -- wCtrRT
